@@ -141,7 +141,13 @@ class Sym(np.ndarray):
             op = _CMP[ufunc]
             a, b = [_coerce(r) for r in raws]
             res = np.vectorize(lambda p, q: op(rq(p) if isinstance(p, z3.ExprRef) or isinstance(q, z3.ExprRef) else p, q), otypes=[object])(a, b)
-            return res.view(Sym) if isinstance(res, np.ndarray) else res
+            if isinstance(res, np.ndarray) and res.ndim > 0:
+                return res.view(Sym)
+            v = res.item() if isinstance(res, np.ndarray) else res
+            if isinstance(v, z3.ExprRef):
+                from vlib.symex import SBool
+                return SBool(v)         # scalar comparison: usable in `flag &= ...` and in `if`
+            return v
         else:
             return NotImplemented
         if out is not None:
